@@ -15,12 +15,20 @@ pub mod util;
 /// Entry point for fuzz targets: runs one case of `lane` of property `id`; panics (so that
 /// libFuzzer records a crash artifact) when the oracle fails with a signature that is not a listed
 /// known finding.
-pub fn fuzz_one(id: &str, lane: &str, data: &[u8]) {
+pub fn fuzz_one(id: &str, lane: &str, split: bool, data: &[u8]) {
     use engine::runner::{run_case, Ctx};
     let Some(f) = props::fuzz_entry(id, lane) else { panic!("no fuzz entry for {} {}", id, lane) };
-    // first byte pair splits the input into case bytes and schedule bytes (none for these lanes)
+    // schedule lanes: the first byte gives the length of the case bytes, the remainder is the schedule
+    let (case, sched): (&[u8], &[u8]) = if split {
+        match data.split_first() {
+            Some((n, rest)) => rest.split_at((*n as usize).min(rest.len())),
+            None => (&[], &[]),
+        }
+    } else {
+        (data, &[])
+    };
     let mut ctx = Ctx::default();
-    if let Err(fail) = run_case(f, data, &[], &mut ctx) {
+    if let Err(fail) = run_case(f, case, sched, &mut ctx) {
         let known = engine::report::load_known(id).iter().any(|k| k.status == "known" && k.signature == fail.sig);
         if !known {
             panic!("VIOLATION property={} lane={} signature={} message={} decoded={}", id, lane, fail.sig, fail.msg, ctx.desc.unwrap_or_default());
